@@ -28,7 +28,7 @@ def b(**kw):
 PROPERTIES = {
     "C01": {
         "runs": {
-            "quick": [H("HarnessC01a", b(K=3, CACHE=0)), H("HarnessC01a", b(K=3, CACHE=1))],
+            "quick": [H("HarnessC01a", b(K=3, CACHE=0)), H("HarnessC01a", b(K=3, CACHE=1)), H("HarnessC01a", b(K=3, CACHE=1, BF=3)), H("HarnessC01a", b(K=4, CACHE=0), sample_every=500)],
             "thorough": [H("HarnessC01a", b(K=3, CACHE=0)), H("HarnessC01a", b(K=3, CACHE=1)), H("HarnessC01a", b(K=3, CACHE=0, BF=3)),
                          H("HarnessC01a", b(K=4, CACHE=0), sample_every=500)],
         },
@@ -54,7 +54,7 @@ PROPERTIES = {
     },
     "C04": {
         "runs": {
-            "quick": [H("HarnessC04a", b(K=3, NOPS=3))] + [H("HarnessC04b", b(N=5, K=1, NOPS=2, HREQ=2, LPAT=p)) for p in (18, 6, 19, 63)],
+            "quick": [H("HarnessC04a", b(K=4, NOPS=3), sample_every=200), H("HarnessC04a", b(K=3, NOPS=3, BF=3))] + [H("HarnessC04b", b(N=5, K=1, NOPS=2, HREQ=2, LPAT=p)) for p in (18, 6, 19, 63)],
             "thorough": [H("HarnessC04b", b(N=5, K=1, NOPS=2, HREQ=2), sample_every=500), H("HarnessC04b", b(N=4, K=2, NOPS=2), sample_every=500), H("HarnessC04a", b(K=4, NOPS=3), sample_every=200), H("HarnessC04a", b(K=3, NOPS=4)), H("HarnessC04a", b(K=3, NOPS=3, BF=3))],
         },
         "must_reach": ["C04.height-rule", "C04.same-link"],
@@ -63,7 +63,7 @@ PROPERTIES = {
     },
     "C05": {
         "runs": {
-            "quick": [H("HarnessC05a", b(K=2, K2=1, FMT=0, CACHE=0)), H("HarnessC05a", b(K=2, K2=1, FMT=1, CACHE=1)), H("HarnessC05a", b(K=2, K2=1, FMT=2, CACHE=0))],
+            "quick": [H("HarnessC05a", b(K=2, K2=1, FMT=0, CACHE=0)), H("HarnessC05a", b(K=2, K2=1, FMT=1, CACHE=1)), H("HarnessC05a", b(K=2, K2=1, FMT=2, CACHE=0)), H("HarnessC05a", b(K=1, K2=2, FMT=0, CACHE=1)), H("HarnessC05a", b(K=2, K2=2, FMT=0, CACHE=1), sample_every=500)],
             "thorough": [H("HarnessC05a", b(K=3, K2=1, FMT=f, CACHE=c), sample_every=200) for f in (0, 1, 2) for c in (0, 1)],
         },
         "must_reach": ["C05.reloaded.iter-seq", "C05.size"],
@@ -83,7 +83,9 @@ PROPERTIES = {
     },
     "C07": {
         "runs": {
-            "quick": [H("HarnessC07a", b(N=3, K=1, MODE=1)), H("HarnessC07a", b(N=3, K=2, MODE=3)), H("HarnessC07a", b(N=3, K=2, MODE=7))],
+            "quick": [H("HarnessC07a", b(N=3, K=1, MODE=1)), H("HarnessC07a", b(N=3, K=2, MODE=3)), H("HarnessC07a", b(N=3, K=2, MODE=7)),
+                      # directed: concrete 33-entry tree of height 5 (ruler layers), one symbolic modification (any key, any layer <= 5)
+                      H("HarnessC07a", b(N=33, K=1, MODE=1, LRULER=1, CONCRETEKEYS=1, Lmax=5), sample_every=20, max_steps=20000000)],
             "thorough": [H("HarnessC07a", b(N=3, K=2, MODE=1), sample_every=500), H("HarnessC07a", b(N=4, K=1, MODE=1), sample_every=500), H("HarnessC07a", b(N=3, K=3, MODE=3), sample_every=500), H("HarnessC07a", b(N=3, K=3, MODE=7), sample_every=500), H("HarnessC07a", b(N=4, K=2, MODE=7), sample_every=500)],
         },
         "must_reach": ["C07.added-covers-new-only-nodes", "C07.added-within-new", "C07.added-once", "C07.removed-covers-old-only-nodes", "C07.replica-content"],
@@ -92,7 +94,9 @@ PROPERTIES = {
     },
     "C15": {
         "runs": {
-            "quick": [H("HarnessC07a", b(N=3, K=1, MODE=1)), H("HarnessC07a", b(N=3, K=2, MODE=3)), H("HarnessC07a", b(N=3, K=2, MODE=7))],
+            "quick": [H("HarnessC07a", b(N=3, K=1, MODE=1)), H("HarnessC07a", b(N=3, K=2, MODE=3)), H("HarnessC07a", b(N=3, K=2, MODE=7)),
+                      # directed: concrete 33-entry tree of height 5 (ruler layers), one symbolic modification (any key, any layer <= 5)
+                      H("HarnessC07a", b(N=33, K=1, MODE=1, LRULER=1, CONCRETEKEYS=1, Lmax=5), sample_every=20, max_steps=20000000)],
             "thorough": [H("HarnessC07a", b(N=3, K=2, MODE=1), sample_every=500), H("HarnessC07a", b(N=4, K=1, MODE=1), sample_every=500), H("HarnessC07a", b(N=3, K=3, MODE=3), sample_every=500), H("HarnessC07a", b(N=3, K=3, MODE=7), sample_every=500), H("HarnessC07a", b(N=4, K=2, MODE=7), sample_every=500)],
         },
         "must_reach": ["C15.difflinks-reads", "C15.diffiter-reads", "C15.same-version-no-reads"],
@@ -101,16 +105,19 @@ PROPERTIES = {
     },
     "C08": {
         "runs": {
-            "quick": [H("HarnessC08a", b(K=3, CACHE=0))],
+            "quick": [H("HarnessC08a", b(K=4, CACHE=0), sample_every=200), H("HarnessC08a", b(K=4, CACHE=1), sample_every=200)],
             "thorough": [H("HarnessC08a", b(K=4, CACHE=0), sample_every=200), H("HarnessC08a", b(K=3, CACHE=1))],
         },
-        "must_reach": ["C08.name-is-hash-of-bytes", "C08.bytes-are-canonical-encoding", "C08.reencode-same-root"],
+        "must_reach": ["C08.name-is-hash-of-bytes", "C08.bytes-are-canonical-encoding", "C08.reencode-same-root", "C08.child-names-are-names-of-written-nodes", "C08.root-name-is-name-of-a-written-node"],
         "bounds_statement": "every Store call of every history of <= K operations (incl. persist+reload) and of the final persist",
         "assumptions": COMMON_ASSUMPTIONS,
     },
     "C09": {
         "runs": {
-            "quick": [H("HarnessC04a", b(K=3, NOPS=3))] + [H("HarnessC04b", b(N=5, K=1, NOPS=2, HREQ=2, LPAT=p)) for p in (18, 6, 19, 63)],
+            "quick": [H("HarnessC04a", b(K=4, NOPS=3), sample_every=200), H("HarnessC04a", b(K=4, NOPS=3, CACHE=1), sample_every=200), H("HarnessC04a", b(K=3, NOPS=3, BF=3))] +
+                     [H("HarnessC04b", b(N=5, K=1, NOPS=2, HREQ=2, LPAT=p)) for p in (18, 6, 19, 63)] +
+                     # scenario-directed: fixed operation sequences through a shared cache (0 insert, 1 delete, 2 persist+reload), keys/values/layers symbolic
+                     [H("HarnessC04a", {**b(K=k, NOPS=3, CACHE=1), "SEQ.h": q}, sample_every=200) for k, q in ((6, 21020), (5, 2102), (7, 201020))],
             "thorough": [H("HarnessC04b", b(N=5, K=1, NOPS=2, HREQ=2), sample_every=500), H("HarnessC04b", b(N=4, K=2, NOPS=2), sample_every=500), H("HarnessC04a", b(K=4, NOPS=3), sample_every=200), H("HarnessC04a", b(K=3, NOPS=3, BF=3))],
         },
         "must_reach": ["C09.layers", "C09.ranges", "C09.no-empty-node", "C09.size"],
@@ -150,7 +157,7 @@ PROPERTIES = {
     },
     "C16": {
         "runs": {
-            "quick": [H("HarnessC16a", b(N=4))],
+            "quick": [H("HarnessC16a", b(N=5), sample_every=200), H("HarnessC16a", b(N=4, BF=3))],
             "thorough": [H("HarnessC16a", b(N=5), sample_every=200), H("HarnessC16a", b(N=4, BF=3))],
         },
         "must_reach": ["C16.get-reads-path", "C16.insert-reads-two-paths", "C16.delete-reads-two-paths", "C16.loadmast-reads-top-only"],
@@ -159,10 +166,10 @@ PROPERTIES = {
     },
     "C19": {
         "runs": {
-            "quick": [H("HarnessC19a", b(N=3, L=3))],
+            "quick": [H("HarnessC19a", b(N=4, L=4), sample_every=100), H("HarnessC19a", b(N=3, L=3, BF=3))],
             "thorough": [H("HarnessC19a", b(N=4, L=4), sample_every=300), H("HarnessC19a", b(N=3, L=3, BF=3))],
         },
-        "must_reach": ["C19.rejected.unknown-format", "C19.rejected.layer-below-height", "C19.rejected.top-missing", "C19.rejected.count-mismatch", "C19.rejected.not-ascending", "C19.rejected.not-ascending-under-configured-order", "C19.rejected.undecodable"],
+        "must_reach": ["C19.rejected.unknown-format", "C19.rejected.layer-below-height", "C19.rejected.top-missing", "C19.rejected.count-mismatch", "C19.rejected.not-ascending", "C19.rejected.not-ascending-under-configured-order", "C19.rejected.tie-under-configured-order", "C19.rejected.undecodable"],
         "bounds_statement": "correctly persisted tree of N ascending symbolic entries, then one perturbation: unknown NodeFormat; symbolic Height (<=4); missing top node; well-formed top node with one value too many / one link too many / two adjacent keys swapped; loader KeyCompare reversed; top node replaced by an arbitrary undecodable buffer of <= L symbolic bytes each < 10 (single-byte varints)",
         "outside": ["BranchFactor perturbation (the symbolic key type's layer does not depend on the branch factor; integer layers are covered in C14)", "buffers longer than L or with multi-byte varints"],
         "assumptions": COMMON_ASSUMPTIONS,
